@@ -400,7 +400,7 @@ func (f *FuncVC) solveFast(o *Obligation, dir string, timeout time.Duration) {
 	case o.expectSat && a == "unsat":
 		o.Status = "vacuous"
 	}
-	if o.Status == "discharged" {
+	if o.Status == "discharged" && os.Getenv("SLIMVC_KEEP") == "" {
 		os.Remove(file)
 	}
 }
